@@ -1,12 +1,86 @@
-import PromModel.Tsdb.Postings
+import PromProofs.Pfm
 /-
   C16 — Series selection and label queries follow matcher semantics.
+  Property theorems only; helper lemmas live in PromProofs/Postings.lean and PromProofs/Pfm.lean.
+
+  Vocabulary: `Sorted p` = strictly increasing refs; `WFix ix` = well-formed index (refs positive and
+  strictly increasing, label names/values non-empty, `lvs` enumerates the values in use);
+  `WFm m` = well-formed matcher (non-empty name; `pred` is constant true for `.*`, non-emptiness for
+  `.+`, emptiness for the empty regex, and enumerated by `setMatches` when those exist) — the theorems
+  hold for ARBITRARY predicates `pred` satisfying it; `sat ms s` = every matcher matches the series'
+  value for its name, an absent label reading as `""`.
 -/
 namespace Prom.C16
 open Prom.Postings
 
-/-- `Intersect()` of nothing is empty (the reason `PostingsForMatchers` adds all-postings when every
-    matcher is subtracting). -/
+/-! ## Combinators (any number of inputs) -/
+
+/-- `Seek`: what remains is exactly the part `≥ target`, still strictly increasing. -/
+theorem seek_spec {p : Postings} (hp : Sorted p) (t : Nat) :
+    Sorted (seek t p) ∧ ∀ y, y ∈ seek t p ↔ y ∈ p ∧ t ≤ y :=
+  ⟨sorted_seek hp, fun _ => mem_seek hp⟩
+
+/-- `Intersect(its...)` of one or more strictly increasing lists is strictly increasing and contains
+    exactly the refs present in every input. (`Intersect()` of nothing is empty: `intersect_nil`.) -/
+theorem intersect_spec {its : List Postings} (hne : its ≠ []) (hs : ∀ p ∈ its, Sorted p) :
+    Sorted (intersect its) ∧ ∀ y, y ∈ intersect its ↔ ∀ p ∈ its, y ∈ p :=
+  ⟨sorted_intersect hs, mem_intersect hne hs⟩
+
 theorem intersect_nil : intersect [] = [] := rfl
+
+example : intersect [[1, 3, 5, 7], [3, 4, 5, 7], [2, 3, 7]] = [3, 7] := by decide
+
+/-- `Merge(its...)` of any number of strictly increasing lists of positive refs is strictly increasing
+    and contains exactly the refs present in some input. -/
+theorem merge_spec {its : List Postings} (hs : ∀ p ∈ its, Sorted p) (hpos : ∀ p ∈ its, ∀ y ∈ p, 0 < y) :
+    Sorted (merge its) ∧ ∀ y, y ∈ merge its ↔ ∃ p ∈ its, y ∈ p :=
+  merge_spec' hs hpos
+
+example : merge [[1, 4], [2, 4, 9], [3]] = [1, 2, 3, 4, 9] := by decide
+
+/-- Why `merge_spec` needs positive refs: `mergedPostings.Next` drops duplicates by comparing with `cur`,
+    which starts at 0, so series ref 0 disappears when two or more lists are merged (the head numbers
+    series from 1 and block refs are offsets/16 past the header, so ref 0 never occurs). -/
+theorem merge_drops_ref_zero_witness : merge [[0, 2], [1]] = [1, 2] := by decide
+
+/-- `Without(full, drop)` is strictly increasing and contains exactly the refs of `full` not in `drop`. -/
+theorem without_spec {full drop : Postings} (hf : Sorted full) (hd : Sorted drop) :
+    Sorted (without full drop) ∧ ∀ y, y ∈ without full drop ↔ y ∈ full ∧ y ∉ drop :=
+  ⟨sorted_without hf, mem_without hf hd⟩
+
+example : without [1, 2, 5, 8, 9] [2, 3, 8] = [1, 5, 9] := by decide
+
+/-! ## PostingsForMatchers -/
+
+/-- Headline: for every well-formed index and every non-empty list of well-formed matchers,
+    `PostingsForMatchers` never fails and returns exactly the refs of the series that satisfy every
+    matcher (absent label = ""), in index order. -/
+theorem pfm_exact {ix : Index} {ms : List Matcher} (wf : WFix ix) (hne : ms ≠ []) (hms : ∀ m ∈ ms, WFm m) :
+    postingsForMatchers ix ms = .ok ((ix.series.filter (sat ms)).map (·.ref)) := by
+  obtain ⟨p, hp, hsorted, hmem⟩ := pfm_mem wf hne hms
+  rw [hp]
+  congr 1
+  apply sorted_ext hsorted
+  · exact List.Pairwise.sublist (List.Sublist.map _ List.filter_sublist) wf.sorted
+  · intro y
+    rw [hmem]
+    simp only [List.mem_map, List.mem_filter]
+    constructor
+    · rintro ⟨s, hs, rfl, h⟩; exact ⟨s, ⟨hs, h⟩, rfl⟩
+    · rintro ⟨s, ⟨hs, h⟩, rfl⟩; exact ⟨s, hs, rfl, h⟩
+
+/-- `ms ≠ []` is needed: with no matcher at all the code returns nothing although every series
+    vacuously satisfies the (empty) conjunction. PromQL and the HTTP API reject empty selectors. -/
+theorem pfm_no_matchers_witness :
+    postingsForMatchers (mkHead [[("a", "x")]]) [] = .ok [] ∧ sat [] ⟨1, [("a", "x")]⟩ = true := by
+  constructor <;> rfl
+
+/-- `WFm.nameNe` is needed: a lone matcher with empty name and empty value is taken for the
+    all-postings key whatever its type, so `{""!=""}` (which no series satisfies) selects everything. -/
+theorem pfm_empty_name_witness :
+    let m : Matcher := ⟨"", .ne, "", fun _ => false, []⟩
+    postingsForMatchers (mkHead [[("a", "x")], [("b", "y")]]) [m] = .ok [1, 2] ∧
+      sat [m] ⟨1, [("a", "x")]⟩ = false := by
+  constructor <;> rfl
 
 end Prom.C16
